@@ -120,8 +120,8 @@ impl InputObject {
                     deprecation: field.deprecation.clone(),
                     default_value: field.default_value.as_ref().map(ToString::to_string),
                     visible: None,
-                    inaccessible: self.inaccessible,
-                    tags: self.tags.clone(),
+                    inaccessible: field.inaccessible,
+                    tags: field.tags.clone(),
                     is_secret: false,
                     directive_invocations: to_meta_directive_invocation(field.directives.clone()),
                 },
